@@ -207,6 +207,17 @@ func (m *vMachine) c13Delta(i int, op vOp, pre *c13Snap) {
 	case "lcreate", "ldeposit", "lwithdraw", "lclose", "lcalc", "lsr":
 		opApp = cfg.Lockers[op.L].App
 	case "block", "price", "unsolicited", "lunsol":
+	case "bid":
+		// a bid belongs to the app of the auction it is placed on (which may have been closed by it)
+		opApp = -2
+		id := mustInt(op.B).Uint64()
+		if a, err := m.c.App.NewaucKeeper.GetAuction(m.c.Ctx, id); err == nil {
+			opApp = m.appIdx(a.AppId)
+		} else if h, err := m.c.App.NewaucKeeper.GetAuctionHistorical(m.c.Ctx, id); err == nil && h.AuctionHistorical != nil {
+			opApp = m.appIdx(h.AuctionHistorical.AppId)
+		}
+	case "lbdep", "lbwd", "lbcancel", "reserve":
+		opApp = -2 // limit bids and reserves are kept per asset pair, not per app
 	default:
 		opApp = m.product(op.P).App
 	}
@@ -224,7 +235,7 @@ func (m *vMachine) c13Delta(i int, op vOp, pre *c13Snap) {
 			k := fmt.Sprintf("%d/%d", pi, ai)
 			d := post.net[k].Sub(pre.net[k])
 			dNetAll = dNetAll.Add(d)
-			if pi != opApp && !d.IsZero() {
+			if opApp != -2 && pi != opApp && !d.IsZero() {
 				m.fail("C13.net-fees-of-other-app-untouched", op.K, "step %d: %s of app %d changed the net fees of app %d in %s by %s", i, op.K, opApp, pi, a.Denom, d)
 			}
 		}
@@ -292,6 +303,23 @@ func (m *vMachine) c13Invariants(i int, op vOp) {
 		}
 		if held := c.Bal(collectorAddr(), a.Denom); held.LT(netAll) {
 			m.fail("C13.collector-custody-backs-net-fees", "after:"+op.K, "step %d: collector custody holds %s%s, recorded net fees of all apps %s", i, held, a.Denom, netAll)
+		}
+	}
+	// "for every asset": net fees recorded under a collateral asset have to be backed as well
+	for ai := 0; ai < cfg.NColl; ai++ {
+		a := cfg.Assets[ai]
+		netAll := sdk.ZeroInt()
+		for _, app := range m.apps {
+			if nf, ok := c.App.CollectorKeeper.GetNetFeeCollectedData(c.Ctx, app, a.ID); ok && !nf.NetFeesCollected.IsNil() {
+				netAll = netAll.Add(nf.NetFeesCollected)
+			}
+		}
+		held := c.Bal(collectorAddr(), a.Denom)
+		if u, ok := m.unsolMod["collectorV1/"+a.Denom]; ok {
+			held = held.Sub(u)
+		}
+		if held.LT(netAll) {
+			m.fail("C13.collector-custody-backs-net-fees", "collateral-asset,after:"+op.K, "step %d: collector custody holds %s%s, net fees recorded under that asset for all apps %s", i, held, a.Denom, netAll)
 		}
 	}
 }
